@@ -118,6 +118,26 @@ TEXT = {
              'ledger violation or crash that disappears when the same plan is re-run with relocations disabled is a C14 violation.',
         note='The converse clause (no container claims the trait when a part is not relocatable) is a compile-time fact and is not decided here.',
         ref='4/C14'),
+    'C15': dict(
+        technique='deterministic fault enumeration: case tuples drawn by seed, every throw index of each case executed, in builds for C++11/14/17/20 '
+                  '(-O0, -O2, ASan+UBSan), element ledger and red-zoned raw memory as oracle',
+        text='Each case (algorithm x length 0-6 x source iterator category x value category) is executed fault-free and then once per throw index '
+             'until no fault fires, against expectations taken from the C++17/20 standard algorithms (returned iterators and pairs, constructed '
+             'values, source state after copy / move / relocate, clean-up on throw, nothing else touched), in twelve builds so that every #ifdef '
+             'branch of memory.hpp is instantiated; a missing return shows as a wrong value, a UBSan report, a crash or a hang of the case.',
+        note='The C++17/20 builds run the same expectations against the std:: algorithms amc aliases, which keeps the reference implementation '
+             'honest; array forms are exercised only where amc provides its own emulation.',
+        ref='4/C15'),
+    'C16': dict(
+        technique='deterministic simulation replayed in differing builds: identical seeds executed in {c++11,14,17,20} x {extras} x {NDEBUG} x {-O0,-O2} '
+                  'builds, transcript (event-log) equality between builds + per-build reference model',
+        text='A portable profile (9 vector, 3 FlatSet and, from C++17, 2 SmallSet configurations; standard operations, plus the extras where built) '
+             'executes the same seeds in every build of the matrix; the per-step transcripts (operation, results, size, capacity, contents, '
+             'allocator events, element events) must be byte-identical between builds, each build also checks its own std::vector/std::set '
+             'model, SFINAE probes check that the extras are absent at compile time when disabled, and a matrix configuration that no longer '
+             'compiles is a violation whose replay is the failing compile command.',
+        note='Quick tier: a covering subset of 6 builds; thorough: all 32. One compiler (g++ 12).',
+        ref='4/C16'),
     'C18': dict(
         technique=SIM + 'allocator-seam call counter and relocation counter around n single appends, with realloc moving or extending by seed',
         text='Start states from short histories, then n single push_back/emplace_back (n up to 1200 quick, 5000 thorough, up to the size_type limit '
@@ -125,6 +145,16 @@ TEXT = {
              'request, shrink_to_fit reaching size() or the inline N.',
         note='The reallocation count is a function of start state and n; the simulator owns the seam where it is counted and the move-vs-extend decision. No fault is injected.',
         ref='4/C18'),
+    'C20': dict(
+        technique='deterministic simulation of thread schedules: real threads released one operation at a time by a seeded scheduler whose hand-offs '
+                  'are hidden from ThreadSanitizer\'s happens-before tracking; TSan reports attributed by racing address',
+        text='2-6 reader threads call const operations (size, iteration, element access, find/contains/bounds, comparisons, copy-construction) on '
+             'one shared container of every flavour and state while 0-3 writer threads mutate their own containers; one seed is one interleaving; '
+             'ThreadSanitizer judges the operations as concurrent because the scheduler synchronisation is annotated away; a report whose address '
+             'lies in the footprint of the shared container (or in an amc:: frame) is a violation; the bytes of the shared container must also be '
+             'identical before and after the reader phase.',
+        note='Samples schedules at operation granularity (amc has no atomics); a report elsewhere is treated as a harness fault (exit 2).',
+        ref='4/C20'),
 }
 
 NOT_APPLICABLE = [
@@ -161,7 +191,7 @@ def generate():
     na.sort(key=lambda d: d['property_id'])
     m = {
         'version': 1,
-        'setup_cmd': 'bin/check build plain asan',
+        'setup_cmd': 'bin/check build plain asan aux',
         'hooks': {
             'guard': 'AMC_VERIF',
             'enable': 'no hook exists: every seam is a template parameter of the library (allocator, element type, comparator, iterator) or a '
@@ -171,6 +201,12 @@ def generate():
             'add_only': True,
         },
         'engines': [
+            {'name': 'memalgo', 'path': 'sim/x_memalgo.cpp', 'serves_properties': ['C15'],
+             'kind_free_text': 'C++11-compatible fault-enumeration harness for the amc:: memory algorithms, built in 4 language standards x 3 flag sets'},
+            {'name': 'portable', 'path': 'sim/x_portable.cpp', 'serves_properties': ['C16'],
+             'kind_free_text': 'C++11-compatible portable profile of the simulator, built in up to 32 configurations; transcripts compared by driver/c16.py'},
+            {'name': 'sched', 'path': 'sim/x_sched.cpp', 'serves_properties': ['C20'],
+             'kind_free_text': 'seeded one-operation-at-a-time thread scheduler over real threads, built with clang -fsanitize=thread'},
             {'name': 'amcsim', 'path': 'sim/', 'serves_properties': sorted(p for p in claimed if amcdriver.CHECKS[p].get('engine', 'amcsim') == 'amcsim'),
              'kind_free_text': 'C++17 deterministic simulator (seeded plans, simulated heap / element ledger / comparator / streams, reference models, '
                                'fault attachment, ddmin shrinker, replay gate) driven by driver/amcdriver.py'},
